@@ -44,22 +44,30 @@ Definition to_json (dmax : N) (fold : option N) (prefix : list N) (cells : list 
   ++ jemit_all dmax 0 true (jfill fold prefix cells (map (jbucket0 prefix) (anseq 0 (S (N.to_nat dmax)))))
   ++ [10] ++ prefix ++ [125].
 
-Definition st_json_elem (p1 p2 d1 d2 : N) (fold : option N) (e : list cell * list cell) : list N :=
-  [123; 10; 32; 32; 34; p1; 34; 58; 32] ++ to_json d1 fold [32; 32] (fst e)
-  ++ [44; 10; 32; 32; 34; p2; 34; 58; 32] ++ to_json d2 fold [32; 32] (snd e) ++ [10; 125].
+(** every element carries its own depths (an element of a RangeMOC2 may be labelled shallower than the MOC2) *)
+Definition st_cells_l := ((N * list cell) * (N * list cell))%type.
 
-Fixpoint st_json_go (p1 p2 d1 d2 : N) (fold : option N) (first : bool) (l : list (list cell * list cell)) : list N :=
+Definition st_json_elem_l (p1 p2 : N) (fold : option N) (e : st_cells_l) : list N :=
+  [123; 10; 32; 32; 34; p1; 34; 58; 32] ++ to_json (fst (fst e)) fold [32; 32] (snd (fst e))
+  ++ [44; 10; 32; 32; 34; p2; 34; 58; 32] ++ to_json (fst (snd e)) fold [32; 32] (snd (snd e)) ++ [10; 125].
+
+Fixpoint st_json_go_l (p1 p2 : N) (fold : option N) (first : bool) (l : list st_cells_l) : list N :=
   match l with
   | [] => if first then [] else [44; 10]
-  | e :: t => (if first then [] else [44; 10]) ++ st_json_elem p1 p2 d1 d2 fold e ++ st_json_go p1 p2 d1 d2 fold false t
+  | e :: t => (if first then [] else [44; 10]) ++ st_json_elem_l p1 p2 fold e ++ st_json_go_l p1 p2 fold false t
   end.
 
 Definition st_json_last (p1 p2 d1 d2 : N) : list N :=
   [123; 32; 34; p1; 34; 58; 32; 123; 32; 34] ++ adec d1 ++ [34; 58; 32; 91; 93; 32; 125; 44; 32; 34; p2; 34; 58; 32; 123; 32; 34]
   ++ adec d2 ++ [34; 58; 32; 91; 93; 32; 125; 32; 125].
 
+Definition st_to_json_l (p1 p2 d1 d2 : N) (fold : option N) (l : list st_cells_l) : list N :=
+  [91; 10] ++ st_json_go_l p1 p2 fold true l ++ st_json_last p1 p2 d1 d2 ++ [10; 93; 10].
+
+(** the usual case: every element labelled with the depths of the MOC2 *)
+Definition st_label (d1 d2 : N) (e : list cell * list cell) : st_cells_l := ((d1, fst e), (d2, snd e)).
 Definition st_to_json (p1 p2 d1 d2 : N) (fold : option N) (l : list (list cell * list cell)) : list N :=
-  [91; 10] ++ st_json_go p1 p2 d1 d2 fold true l ++ st_json_last p1 p2 d1 d2 ++ [10; 93; 10].
+  st_to_json_l p1 p2 d1 d2 fold (map (st_label d1 d2) l).
 
 (** ---------- reader: serde_json::from_str on a SUBSET of JSON, then from_json_aladin_internal ----------
     The subset ([JOut] = outside, no claim): ASCII documents made of the six punctuation characters, the
